@@ -1,0 +1,18 @@
+//go:build verif
+
+package crypto
+
+// Contracts for package crypto, checked by /verif (govc). Comment-only file: it adds no declarations.
+
+//@ func ValidateED25519Signature(key, data, signature) (ok)
+//@   trusted
+//@   pure
+//@   ensures ok ==> len(key) == 32 && len(signature) == 64
+//@   ensures ok == (len(key) == 32 && len(signature) == 64 && ed25519_verify(seq(key), seq(data), seq(signature)))
+
+//@ func ED25519Signature(key, data) (sig, err)
+//@   trusted
+//@   fresh sig
+//@   pure
+//@   ensures err == nil ==> len(sig) == 64 && seq(sig) == ed25519_sign(seq(key), seq(data))
+//@   ensures err != nil ==> sig == nil
